@@ -102,6 +102,11 @@ def random_value(rng):
     if c == 8:
         # binary REAL from a random double: mantissa/exponent base 2
         x = struct.unpack(">d", struct.pack(">Q", rng.randrange(2 ** 64)))[0]
+        pick = rng.randrange(6)
+        if pick == 0:
+            x = struct.unpack(">d", struct.pack(">Q", rng.randrange(1, 2 ** 52) | (rng.randrange(2) << 63)))[0]            # subnormal
+        elif pick == 1:
+            x = struct.unpack(">d", struct.pack(">Q", (rng.choice([1, 2, 3, 2045, 2046]) << 52) | rng.randrange(2 ** 52)))[0]   # smallest / largest normal binades
         if x != x or x in (float("inf"), float("-inf")) or x == 0:
             return ("real", b"\x40")
         m, e = abs(x).hex(), 0
@@ -114,6 +119,12 @@ def random_value(rng):
         while num % 2 == 0 and num:
             num //= 2
             e2 += 1
+        if rng.randrange(3) == 0:
+            # a mantissa wider than the minimal one (X.690 8.5.7 lets the sender choose; encoders that always emit 53 bits, or 64): the
+            # same number, more trailing zero bits in N and a smaller exponent
+            k = rng.choice([1, 7, 8, 52 - min(52, num.bit_length()) if num.bit_length() < 52 else 3, 11, 40, 63])
+            num <<= max(k, 0)
+            e2 -= max(k, 0)
         mb = num.to_bytes((num.bit_length() + 7) // 8, "big")
         form = rng.randrange(4)
         width = max(form + 1 if form < 3 else rng.choice([1, 2, 3, 4]), 1 if -128 <= e2 < 128 else 2)
